@@ -237,11 +237,15 @@ func runOn(engine string, m *c.ModSpec, bin []byte, calls [][]uint64, reent stri
 func main() {
 	seed := flag.Uint64("seed", 1, "")
 	n := flag.Int("n", 100, "")
+	nx := flag.Int("nx", 40, "linked failure histories (xlink.go)")
 	flag.Parse()
 	rng := c.NewRng(*seed)
 	out := c.NewOut()
 	defer out.Flush()
 	startFails(context.Background(), out)
+	for _, xc := range xlinkedCases(c.NewRng(*seed*7919+13), *nx) {
+		out.Emit(xc)
+	}
 	cases := make([]Case, *n)
 	mods := make([]*c.ModSpec, *n)
 	bins := make([][]byte, *n)
